@@ -912,3 +912,93 @@ Proof. unfold mvH. rewrite mconj_mim. revert y. induction M as [|r M IH]; intros
   apply vreal_cons in H; destruct H. rewrite vim_vadd, vneg_vadd, IH by auto. f_equal.
   rewrite vim_vscale, vim_vconj by auto. rewrite !vneg_vscale, !vscale_vscale. f_equal. ring. Qed.
 End ReImS.
+
+(* ---------- real-input extensionality of the traversal schemes
+   (used for toreal/toimag below stacks / apply_columns / Kronecker) ---------- *)
+Section RealExt.
+Variable S : StarRing.
+Notation vec := (list S).
+Notation mat := (list (list S)).
+
+Lemma mreal_cons (r : vec) (M : mat) : mconj S (r :: M) = r :: M <-> vreal S r /\ mconj S M = M.
+Proof. unfold vreal; simpl; split; [intros H; inversion H; split; congruence | intros [-> ->]; auto]. Qed.
+Lemma mreal_in (M : mat) u : mconj S M = M -> In u M -> vreal S u.
+Proof. induction M as [|r M IH]; simpl; intros H []; apply mreal_cons in H; destruct H; subst; auto. Qed.
+Lemma mreal_map {X} (f : X -> vec) l : (forall a, In a l -> vreal S (f a)) -> mconj S (map f l) = map f l.
+Proof. intros H. unfold mconj. rewrite map_map. apply map_ext_in. intros a Ha. apply H; auto. Qed.
+Lemma vreal_concat (M : mat) : mconj S M = M -> vreal S (concat M).
+Proof. intros H. unfold vreal, vconj. rewrite concat_map. change (map (map (conj S)) M) with (mconj S M). rewrite H; auto. Qed.
+Lemma mreal_chunks k n (x : vec) : vreal S x -> mconj S (chunks S k n x) = chunks S k n x.
+Proof. revert x; induction k; intros x H; simpl; auto. apply mreal_cons. split; [apply vreal_firstn | apply IHk, vreal_skipn]; auto. Qed.
+Lemma mreal_transpose n (M : mat) : mconj S M = M -> mconj S (transpose S n M) = transpose S n M.
+Proof. intros H. rewrite mconj_transpose, H; auto. Qed.
+Lemma vreal_slice a b (x : vec) : vreal S x -> vreal S (slice S a b x).
+Proof. intros; unfold slice. apply vreal_firstn, vreal_skipn; auto. Qed.
+Lemma vreal_scatter n cs (x : vec) : vreal S x -> vreal S (scatter S n cs x).
+Proof. unfold vreal; intros H. rewrite vconj_scatter, H; auto. Qed.
+Lemma vreal_gather cs (v : vec) : vreal S v -> vreal S (gather S cs v).
+Proof. unfold vreal, gather, vconj; intros H. rewrite map_map. apply map_ext. intros c.
+  rewrite <- H at 2. rewrite <- (conj_zero S) at 2. symmetry. apply map_nth. Qed.
+
+Lemma kron_ap_ext_real k1 k2 l2 l1 (f1 f2 g1 g2 : vec -> vec) x : length x = (k1 * k2)%nat -> vreal S x ->
+  (forall u, vreal S u -> length u = k2 -> f2 u = g2 u /\ vreal S (f2 u)) ->
+  (forall u, vreal S u -> length u = k1 -> f1 u = g1 u /\ vreal S (f1 u)) ->
+  kron_ap S k1 k2 l2 l1 f1 f2 x = kron_ap S k1 k2 l2 l1 g1 g2 x /\ vreal S (kron_ap S k1 k2 l2 l1 f1 f2 x).
+Proof. intros Hx Rx E2 E1. unfold kron_ap.
+  pose proof (mreal_chunks k1 k2 x Rx) as RC. pose proof (chunks_wf S k1 k2 x Hx) as WC.
+  assert (EQ2 : map f2 (chunks S k1 k2 x) = map g2 (chunks S k1 k2 x)).
+  { apply map_ext_in. intros u Hu. apply E2; [eapply mreal_in; eauto | eapply Forall_forall in WC; eauto]. }
+  assert (R2 : mconj S (map f2 (chunks S k1 k2 x)) = map f2 (chunks S k1 k2 x)).
+  { apply mreal_map. intros u Hu. apply E2; [eapply mreal_in; eauto | eapply Forall_forall in WC; eauto]. }
+  set (Y := map f2 (chunks S k1 k2 x)) in *.
+  assert (LT : forall u, In u (transpose S l2 Y) -> vreal S u /\ length u = k1).
+  { intros u Hu. split.
+    - apply (mreal_in (transpose S l2 Y)); auto. apply mreal_transpose; auto.
+    - pose proof (proj1 (Forall_forall _ _) (transpose_wf S l2 Y) u Hu) as W. simpl in W.
+      rewrite W. unfold Y. rewrite map_length, chunks_length; auto. }
+  assert (EQ1 : map f1 (transpose S l2 Y) = map g1 (transpose S l2 Y)).
+  { apply map_ext_in. intros u Hu. destruct (LT u Hu). apply E1; auto. }
+  split.
+  - rewrite <- EQ2. fold Y. rewrite EQ1. reflexivity.
+  - apply vreal_concat. apply mreal_transpose. apply mreal_map. intros u Hu. destruct (LT u Hu). apply E1; auto.
+Qed.
+
+Section StacksReal.
+Context {E : Type}.
+Variables (key : E -> nat) (f g : E -> vec -> vec).
+
+Lemma cat_all_ext_real es x :
+  Forall (fun e => f e x = g e x /\ vreal S (f e x)) es ->
+  cat_all S (map f es) x = cat_all S (map g es) x /\ vreal S (cat_all S (map f es) x).
+Proof. unfold cat_all. induction 1 as [|e es [E1 R1] _ [IE IR]]; simpl; [split; reflexivity|].
+  rewrite !map_map in *. split; [rewrite E1, IE; auto | apply vreal_app; auto]. Qed.
+
+Lemma acc_slices_ext_real n es :
+  Forall (fun e => forall u, vreal S u -> length u = key e -> f e u = g e u /\ vreal S (f e u)) es ->
+  forall off x, vreal S x -> length x = (off + list_sum (map key es))%nat ->
+  acc_slices S n (map (fun e => (key e, f e)) es) off x = acc_slices S n (map (fun e => (key e, g e)) es) off x /\
+  vreal S (acc_slices S n (map (fun e => (key e, f e)) es) off x).
+Proof. induction 1 as [|e es He _ IH]; intros off x Rx Hx; simpl.
+  - split; [reflexivity | apply vreal_zeros].
+  - simpl in Hx. destruct (He (slice S off (off + key e) x)) as [E1 R1].
+    + apply vreal_slice; auto.
+    + apply (slice_length S off (key e + list_sum (map key es))); auto; lia.
+    + destruct (IH (off + key e)%nat x Rx) as [E2 R2]; [lia|].
+      split; [rewrite E1, E2; auto | apply vreal_vadd; auto].
+Qed.
+
+Lemma cat_slices_ext_real es :
+  Forall (fun e => forall u, vreal S u -> length u = key e -> f e u = g e u /\ vreal S (f e u)) es ->
+  forall off x, vreal S x -> length x = (off + list_sum (map key es))%nat ->
+  cat_slices S (map (fun e => (key e, f e)) es) off x = cat_slices S (map (fun e => (key e, g e)) es) off x /\
+  vreal S (cat_slices S (map (fun e => (key e, f e)) es) off x).
+Proof. induction 1 as [|e es He _ IH]; intros off x Rx Hx; simpl.
+  - split; reflexivity.
+  - simpl in Hx. destruct (He (slice S off (off + key e) x)) as [E1 R1].
+    + apply vreal_slice; auto.
+    + apply (slice_length S off (key e + list_sum (map key es))); auto; lia.
+    + destruct (IH (off + key e)%nat x Rx) as [E2 R2]; [lia|].
+      split; [rewrite E1, E2; auto | apply vreal_app; auto].
+Qed.
+End StacksReal.
+End RealExt.
